@@ -319,8 +319,9 @@ class StarSet(object):
         :param threshold: threshold for determining equality with symmetry
         :param originstates: include origin states in generate?
         """
-        if Nshells == getattr(self, 'Nshells', -1): return
+        if Nshells == getattr(self, 'Nshells', -1) and originstates == getattr(self, 'originstates', None): return
         self.Nshells = Nshells
+        self.originstates = originstates
         if Nshells > 0:
             stateset = set(self.jumplist)
         else:
